@@ -19,6 +19,12 @@ class HarnessError(Exception):
     """The machinery itself is wrong (never a VIOLATION)."""
 
 
+class ForeignMismatch(Exception):
+    """The small foreign design that is built and simulated between the events of a world
+    computed a wrong value: PyRTL misbehaved (reported as a violation of the property whose
+    world it happened in)."""
+
+
 class RunTimeout(Exception):
     """Raised by the SIGALRM handler (lives here, not in worker.py, because `python -m
     verifsim.worker` loads worker.py as __main__ and a second import would define a second,
